@@ -150,12 +150,13 @@ PROPS = {
             "trusted": HUB_TRUST + ["yieldify rewriter + cooperative scheduler for the schedule-steered stage", "bbolt cursor order and snapshot isolation of the read transaction"],
             "assumptions": ["a requested id that is stored only after the registration, or that retention has already dropped, is treated as unknown"]},
     "C09": {"binaries": ["verifh", "verifs"],
-            "stages": [{"kind": "cases", "name": "kill-points", "driver": "CRASH", "binary": "verifs", "n": {"quick": 1, "thorough": 1}}, HUB_STAGE],
+            "stages": [{"kind": "cases", "name": "kill-points", "driver": "CRASH", "binary": "verifs", "n": {"quick": 1, "thorough": 1}}, HUB_STAGE, {"kind": "cases", "name": "failed-write", "driver": "FAILW", "n": {"quick": 4, "thorough": 16}}],
             "rule": "kill-points: a publish sequence on a real Bolt transport (sizes 0/2/3, initial history 0-3, 1-2 subscribers; thorough: sizes 0-4 x initial 0-5 x 4 publishes) "
                     "under the cooperative scheduler; for EVERY scheduling point of the instrumented current sources (before/after the write transaction, between persistence and "
                     "fan-out, inside cleanup, in the subscriber's methods) all goroutines are frozen for ever, the history file is copied as the kill left it and reopened: it must "
                     "reopen, hold exactly the retention window of some number of publications >= everything acknowledged or already handed to a subscriber, and report the last "
-                    "stored id. hub-histories: " + HUB_RULE + " (restarts there are graceful stops)",
+                    "stored id. hub-histories: " + HUB_RULE + " (restarts there are graceful stops). failed-write: a publish whose write transaction fails (ids of 32761-70000 bytes make the key larger than bbolt accepts) "
+                    "between two ordinary ones, a live subscriber connected; the file is then copied and read with bbolt: acknowledged (2xx, or the id as body) or handed to the subscriber implies stored, and the neighbours are stored.",
             "trusted": HUB_TRUST + ["a frozen process with the file copied stands for kill -9 (page cache survives); power loss and bbolt's fsync protocol are not exercised",
                                     "the kill points are the scheduling points of mercure's own statements: a kill inside bbolt's commit is bbolt's atomicity (trusted)"],
             "assumptions": []},
@@ -201,7 +202,7 @@ PROPS = {
     "C04": {
         "stages": [{"kind": "cases", "name": "carriers", "driver": "C04", "n": {"quick": 1, "thorough": 1}}],
         "exhaustive": True,
-        "rule": "EXHAUSTIVE product {absent, valid, invalid signature, malformed, duplicated}^3 over the Authorization header, the authorization query "
+        "rule": "EXHAUSTIVE product {absent, valid, invalid signature, malformed, duplicated, present with an empty value}^3 over the Authorization header, the authorization query "
                 "parameter and the cookie (each valid credential carries different rights, so the effective identity is observable) x endpoint {publish POST, "
                 "subscribe GET, subscription API GET} x anonymous {on, off} x cookie name {default, custom}; plus, for a cookie alone on a POST, Origin "
                 "{absent, allowed, not allowed, 'null'} x Referer {absent, allowed, not allowed, unparsable, allowed host with another port, allowed host with the other scheme} x publish origins {none, list, '*', list containing 'null'} x cookie {valid, invalid}. "
@@ -254,7 +255,7 @@ PROPS = {
         "stages": [{"kind": "cases", "name": "sse", "driver": "C12", "n": {"quick": 3000, "thorough": 40000}}],
         "rule": "unit cases: Event.String() bytes of generated events (payload alphabet CR/LF/CRLF/':'/space/field names/NUL/multibyte; "
                 "every 10th malformed: CR/LF or NUL in id/type) compared with the model serializer and parsed by the model's WHATWG parser; "
-                "stream cases: 1-3 form-encoded POSTs through the hub on local/bolt (live and replay) and the bytes one subscriber received. "
+                "stream cases: 1-3 form-encoded POSTs through the hub on local/bolt (live and replay; retry written in decimal, with leading zeros half of the time) and the bytes one subscriber received. "
                 "non-trivial = payload has a line break or type/retry set (unit), every stream case; distinct = distinct Gallina case term",
         "trusted": ["WHATWG event-stream interpretation transcribed by hand into Model/Sse.v (sse_parse)",
                     "net/http form decoding, encoding/json (bolt path), gofrs/uuid freshness: exercised by the stream cases only"],
